@@ -191,6 +191,12 @@ def trace_of(path, upto=None, limit=60):
     return out[-limit:]
 
 
+def unlisted_violations(report):
+    """broken rule instances that are not listed as known findings"""
+    kn = [k for k in load_known().get("known", []) if k.get("property") == report.pid]
+    return [o for o in report.obs if not o.ok and not any(k.get("rule") == o.rule and k.get("construct") == o.key for k in kn)]
+
+
 def finish(report, tier, seed, t0, replay_only=None):
     """match known findings, print, write evidence + replay files; returns exit code."""
     pid = report.pid
